@@ -52,6 +52,14 @@ class Interface(Scope):
         return self.abstract
 
     def resolve_link(self, obj_tree):
+        # The implementation a submodule gave for a prototype may be gone since
+        for child in self.children:
+            impl = getattr(child, "link_obj", None)
+            if impl is None:
+                continue
+            owner = obj_tree.get(impl.FQSN.split("::")[0], [None])[0]
+            if owner is None or not any(impl is obj for obj in owner.children):
+                child.link_obj = None
         if self.parent is None:
             return
         self.mems = []
